@@ -78,6 +78,7 @@ type loopCut struct {
 	heldAt   map[string]string
 	decr0    []string
 	sections string
+	entryPhi map[*ssa.Phi]string
 	entryPC  int
 }
 
